@@ -416,8 +416,8 @@ def _labels(ctx: Ctx, model) -> None:
     # constraints recognised in set_label
     cons = {
         "strip": "label.strip()" in src,
-        "ascii": "str.isascii" in src,
-        "not_all_digits": "str.isdigit" in src,
+        "ascii": "isascii" in src,
+        "not_all_digits": "isdigit" in src,
     }
     if not all(cons.values()):
         raise AnalysisError(f"Element.set_label: validation shape changed ({cons})")
